@@ -126,13 +126,13 @@ CLAIMED["C11"] = {
 # what was added to each check after the first version (kept apart so the
 # original descriptions stay readable)
 LATER = {
-    "C04": "Later additions: a sentinel step (the last form wrapped in the harness's own ignore-errors followed by a constant, symbol or call in tail position) under which no budget below the run's cost and no cancellation index may end in a value; nesting levels that pass through load-string / load-bytes with a lower bound on the admitting limit; the logical stack height swept like the physical one; a budget and a cancellation configured together. Wave 6: tail loops whose call arguments recurse (non-tail) 1-90 frames deep on chosen turns, so the frame storage grows under the loop. Waves 7-8: host faults (panic, error, nil return at cooperative fault points, also reached through funcall/apply/foldl) are part of a third of the programs and of their reference runs, so every budget/cancellation oracle and the refill rule also hold across a recovered host panic; the physical and the logical stack limit configured together.",
-    "C05": "Later additions: the host cancels an operation's context after the entry point returned; functions defined by acknowledged operations contain special operators; a bytes value belongs to the shared state and multi-element appends are refused on a middle or last element. Wave 6: calls refused while their arguments are bound (builtins, special operators, builtin macros, lambdas, malformed keyword lists) as a source of errors. Waves 7-8: callbacks that fail at their k-th call are counted (a failed callback is never called again; exposed defect D9, repaired); LoadFile/LoadLocation entry points; host builtins used as handlers and host panics whose payload is a lisp error, a Go error, an int or a runtime error. Wave 9: the inspection after every operation begins by checking that an error merely named internal-panic is still contained by ignore-errors and a catch-all.",
-    "C06": "Later additions: interpreter condition names raised from lisp, handlers that change their data in place before rethrow, handlers named by unbound symbols, malformed host errors, and after every case no condition may be offered to a top-level rethrow. Waves 7-8: host builtins used as handlers (themselves fault points) and host panics whose payload is a lisp error value, the Go error of one, an int or a Go runtime error. Wave 9: package-qualified condition names.",
-    "C08": "Later additions: lexical bindings named like special operators, macros, builtins and package functions used in operator position; the language package gains exports in mid-history (new packages start with them, existing ones keep what they have); nested loads through load-bytes. Wave 6: a refused in-package (non-string documentation argument), swallowed, followed by the well-formed call for the same possibly new package.",
-    "C09": "Later additions: abbreviated, incomplete and over-full special-form syntax (near-miss forms) and the values the interpreter hands out for type names, directly, in argument-type errors and through macro expansions. Wave 6: every runtime is constructed inside its scheduled goroutine (construction fills process-wide tables too); values made by libraries (validators, type objects, durations) placed inside macro expansions (which exposed defect D8, repaired). Waves 7-8: quoted literals built by macro expansions observed like written ones; insertion at the very end of a literal followed by in-place work; runtimes configured differently by their hosts (json options) with solo twins run before as well as after the interleaved run. Wave 9: in a sixth of the cases the shared parse is made by the format-preserving reader and loaded as a lisp.Program by every runtime (exposed defect D12, repaired).",
-    "C10": "Later additions: well-formed and near-miss text for the library parsers, misspelt references with several equally near candidates, and process groups that also differ in TZ, LANG, LC_ALL, HOME and USER. Wave 6: a third of the forms report what the host would log for their error (message naming the refusing function, and trace) through sim:errtext; non-function values of the packages and user-defined types used where types or functions are expected; host natives that are pointers to structs full of pointers, printed, looked up through help and carried in errors. Waves 7-8: an interruption at a fixed poll (cancellation / expired deadline) or a small step budget in every repetition; one cached parse (lisp.Program) shared by the fresh runtimes of the repetitions, with in-place work on literals printed before and after.",
-    "C11": "Later additions: stability of sorts under equal keys, single-argument concat, bytes appended from variables (also onto empty accumulators), and reach-in follow-ups that take an element container out of a container, change it in place and inspect both. Waves 7-8: forms that hand back the very value they were given; get-default/key?; insert-sorted of container items ordered by length (the caller's own value ends up in the result).",
+    "C04": "Later additions: a sentinel step (the last form wrapped in the harness's own ignore-errors followed by a constant, symbol or call in tail position) under which no budget below the run's cost and no cancellation index may end in a value; nesting levels that pass through load-string / load-bytes with a lower bound on the admitting limit; the logical stack height swept like the physical one; a budget and a cancellation configured together. Wave 6: tail loops whose call arguments recurse (non-tail) 1-90 frames deep on chosen turns, so the frame storage grows under the loop. Waves 7-8: host faults (panic, error, nil return at cooperative fault points, also reached through funcall/apply/foldl) are part of a third of the programs and of their reference runs, so every budget/cancellation oracle and the refill rule also hold across a recovered host panic; the physical and the logical stack limit configured together. Wave 10: in a third of the structural cases the limit is assigned to the exported Runtime / CallStack field of a runtime that has already evaluated something.",
+    "C05": "Later additions: the host cancels an operation's context after the entry point returned; functions defined by acknowledged operations contain special operators; a bytes value belongs to the shared state and multi-element appends are refused on a middle or last element. Wave 6: calls refused while their arguments are bound (builtins, special operators, builtin macros, lambdas, malformed keyword lists) as a source of errors. Waves 7-8: callbacks that fail at their k-th call are counted (a failed callback is never called again; exposed defect D9, repaired); LoadFile/LoadLocation entry points; host builtins used as handlers and host panics whose payload is a lisp error, a Go error, an int or a runtime error. Wave 9: the inspection after every operation begins by checking that an error merely named internal-panic is still contained by ignore-errors and a catch-all. Wave 10: the inspection also begins with a call made by the host (FunCall of a builtin with a bad argument) whose error text, position included, must equal the clean twin's while the history consists of Load* entry points.",
+    "C06": "Later additions: interpreter condition names raised from lisp, handlers that change their data in place before rethrow, handlers named by unbound symbols, malformed host errors, and after every case no condition may be offered to a top-level rethrow. Waves 7-8: host builtins used as handlers (themselves fault points) and host panics whose payload is a lisp error value, the Go error of one, an int or a Go runtime error. Wave 9: package-qualified condition names. Wave 10: package-qualified symbols and keywords as error data taken out of quoted literals.",
+    "C08": "Later additions: lexical bindings named like special operators, macros, builtins and package functions used in operator position; the language package gains exports in mid-history (new packages start with them, existing ones keep what they have); nested loads through load-bytes. Wave 6: a refused in-package (non-string documentation argument), swallowed, followed by the well-formed call for the same possibly new package. Wave 10: keywords spelled as let variables and formals (accepted, never bound).",
+    "C09": "Later additions: abbreviated, incomplete and over-full special-form syntax (near-miss forms) and the values the interpreter hands out for type names, directly, in argument-type errors and through macro expansions. Wave 6: every runtime is constructed inside its scheduled goroutine (construction fills process-wide tables too); values made by libraries (validators, type objects, durations) placed inside macro expansions (which exposed defect D8, repaired). Waves 7-8: quoted literals built by macro expansions observed like written ones; insertion at the very end of a literal followed by in-place work; runtimes configured differently by their hosts (json options) with solo twins run before as well as after the interleaved run. Wave 9: in a sixth of the cases the shared parse is made by the format-preserving reader and loaded as a lisp.Program by every runtime (exposed defect D12, repaired). Wave 10: filters that keep or drop everything and map with the identity, followed by in-place work on the result.",
+    "C10": "Later additions: well-formed and near-miss text for the library parsers, misspelt references with several equally near candidates, and process groups that also differ in TZ, LANG, LC_ALL, HOME and USER. Wave 6: a third of the forms report what the host would log for their error (message naming the refusing function, and trace) through sim:errtext; non-function values of the packages and user-defined types used where types or functions are expected; host natives that are pointers to structs full of pointers, printed, looked up through help and carried in errors. Waves 7-8: an interruption at a fixed poll (cancellation / expired deadline) or a small step budget in every repetition; one cached parse (lisp.Program) shared by the fresh runtimes of the repetitions, with in-place work on literals printed before and after. Wave 10: symbols that differ only in letter case, with listings of the package's symbols and errors naming them.",
+    "C11": "Later additions: stability of sorts under equal keys, single-argument concat, bytes appended from variables (also onto empty accumulators), and reach-in follow-ups that take an element container out of a container, change it in place and inspect both. Waves 7-8: forms that hand back the very value they were given; get-default/key?; insert-sorted of container items ordered by length (the caller's own value ends up in the result). Wave 10: map with callbacks that keep the &rest list they were called with.",
     "C15": "Later additions: a context that reports a deadline, has no Done channel and whose Err stays nil after the deadline; durations at the ends of the int64 range; time-elapsed compared with time-from. Wave 6: the ceiling configured by assigning Runtime.MaxSleep or by re-applying the option after a looser one; a second sleep inside a handler for context-cancelled around the first. Waves 7-8: sleeps in sources loaded by load-string/load-bytes from function bodies; runtimes assembled as composite literals (NewEnvRuntime); sleeps through an embedder's one-formal binding of libtime.BuiltinSleep.",
     "C20": "Later additions: roots spelled relative to a working directory at or below the root (which exposed defect D7, repaired), and files that load further files, whose nested relative locations must resolve against the directory of the file containing the call (entered directly, through links, and through a function defined in another file). Wave 6: the working directory entered through a directory link inside the root that points outside it, with $PWD spelling it that way; files that load files through the fs.FS library, entered directly and from a loader file two directories down. Waves 7-8: every real directory of the layout is watched with inotify and a load during which a file outside the root was opened or read is a violation even when it is refused; relative loads issued by source strings whose free-text label looks like a path compared with the same string under its default name (both libraries); several loads issued by one top-level form through map/foldl/apply (exposed defect D10, repaired). Wave 9: the repository's own command-line tool (elps run --root-dir, built from the tree under test) is run as a subprocess against the simulated disk for every link under the root (exposed defect D11, repaired).",
 }
